@@ -102,7 +102,10 @@ func kvToTreasure(kv *hydrapb.KeyValuePair) *hydrapb.Treasure {
 		CreatedAt: kv.CreatedAt, CreatedBy: kv.CreatedBy, UpdatedAt: kv.UpdatedAt, UpdatedBy: kv.UpdatedBy, ExpiredAt: kv.ExpiredAt}
 }
 
-func newC26Env(root string) (*c26Env, error) {
+func newC26Env(root string) (*c26Env, error) { return newC26EnvAt(root, root == "") }
+
+// newC26EnvAt starts a rig on root ("" = new temp dir); fresh = write the sentinel swamp.
+func newC26EnvAt(root string, fresh bool) (*c26Env, error) {
 	e := &c26Env{ms: c26AllMethods(), watchdog: c26Watchdog}
 	e.r = rig.New(rig.Options{Root: root, Patterns: c26Patterns})
 	e.tap = installPanicTap()
@@ -112,7 +115,7 @@ func newC26Env(root string) (*c26Env, error) {
 		e.sentinel = append(e.sentinel, kvToTreasure(kv))
 	}
 	sort.Slice(e.sentinel, func(i, j int) bool { return e.sentinel[i].Key < e.sentinel[j].Key })
-	if root == "" {
+	if fresh {
 		resp, err := e.r.G.Set(context.Background(), &hydrapb.SetRequest{Swamps: []*hydrapb.SwampRequest{{IslandID: rig.Island(c26Sentinel), SwampName: c26Sentinel,
 			CreateIfNotExist: true, Overwrite: true, KeyValues: kvs}}})
 		if err != nil || resp == nil {
@@ -694,6 +697,20 @@ func (e *c26Env) runSteps(s C26Scenario, prefix string, touched *c26Touched, out
 		touched.refs = append(touched.refs, swampRef{Island: rig.Island(victim), Name: victim, Canon: true})
 	}
 	for i, st := range s.Steps {
+		if i == 1 && s.Target == "reg" && s.Prefill {
+			// the pattern registered by step 0 now governs this swamp: store known records in it
+			reg := strings.ReplaceAll(c26Reg(), c26Tok, prefix)
+			res := e.call("direct", "Set", &hydrapb.SetRequest{Swamps: []*hydrapb.SwampRequest{{IslandID: rig.Island(reg), SwampName: reg,
+				CreateIfNotExist: true, Overwrite: true, KeyValues: c26Prefill()}}})
+			if res.hung {
+				e.poisoned = true
+				return fail("hang", "a valid Set on %s (covered by the pattern registered in step 0: %s) did not return within %v", reg, s.Steps[0].Desc, pbt.Bound(e.watchdog))
+			}
+			if res.err != nil || res.respNil || res.panicVal != nil {
+				return fail("reg-set-failed", "a valid Set on %s (covered by the pattern registered in step 0: %s) failed: err=%v panic=%v", reg, s.Steps[0].Desc, res.err, res.panicVal)
+			}
+			touched.refs = append(touched.refs, swampRef{Island: rig.Island(reg), Name: reg, Canon: true})
+		}
 		md, ok := e.ms.in[st.RPC]
 		if !ok {
 			return fail("harness", "unknown rpc %q", st.RPC)
@@ -865,13 +882,19 @@ func (e *c26Env) runCase(s C26Scenario) pbt.Outcome {
 			return *f
 		}
 	}
-	// read-only requests leave the prefilled victim exactly as written
-	if s.Prefill && s.Target == "victim" {
+	// read-only requests leave the prefilled victim (or registered-pattern swamp) exactly as written
+	if s.Prefill && (s.Target == "victim" || (s.Target == "reg" && len(s.Steps) >= 2 && !touched.inMem)) {
 		ro := true
-		for _, st := range s.Steps {
+		for i, st := range s.Steps {
+			if s.Target == "reg" && i == 0 {
+				continue
+			}
 			ro = ro && c26ReadOnly[st.RPC]
 		}
 		victim := strings.ReplaceAll(c26Victim(), c26Tok, prefix)
+		if s.Target == "reg" {
+			victim = strings.ReplaceAll(c26Reg(), c26Tok, prefix)
+		}
 		vref := swampRef{Island: rig.Island(victim), Name: victim, Canon: true}
 		if ro && touched.comparable(vref, prefix) {
 			got, exists, f := e.readAll(vref)
